@@ -148,6 +148,19 @@ pub trait Sys: Sized + 'static {
     fn observable_view(_s: &Self::S) -> Option<String> {
         None
     }
+    // ---- stand-alone replay (a plain Rust test that needs no explorer); "" = not available
+    /// the Rust type of the state, e.g. "Orswot<u8, u8>"
+    fn rust_type() -> &'static str {
+        ""
+    }
+    /// expression that builds the op for `c` from a replica bound to the variable `s`
+    fn rust_gen(_c: Cmd, _actor: u8, _idx: usize) -> String {
+        String::new()
+    }
+    /// body of `fn reads(s: &S) -> String`
+    fn rust_reads() -> &'static str {
+        "format!(\"{:?}\", s)"
+    }
     /// is op `j` a remove-like op (used by C20: "a remove and everything it observed have arrived")
     fn is_remove(_c: Cmd) -> bool {
         false
@@ -407,6 +420,52 @@ impl<Y: Sys> Hist<Y> {
                     m1 = (m1 - 1) & mask;
                 }
             }
+            if cfg.merge && Y::HAS_MERGE && !ents.is_empty() {
+                // stale and self merges: a state of this knowledge set merged with (or into) any reachable
+                // state whose knowledge is a subset.  On a correct subject these produce nothing new; what
+                // they do produce is part of S(K) and is seen by every oracle.  Iterated to a fixpoint.
+                let mut start = 0;
+                loop {
+                    let end = ents.len();
+                    if start == end {
+                        break;
+                    }
+                    let mut fresh: Vec<(Y::S, How)> = vec![];
+                    for i1 in start..end {
+                        let mut m2 = mask;
+                        loop {
+                            let n2 = if m2 == mask { end } else { self.table[m2 as usize].len() };
+                            for i2 in 0..n2 {
+                                let other = if m2 == mask { &ents[i2].s } else { &self.table[m2 as usize][i2].s };
+                                let mut a = ents[i1].s.clone();
+                                Y::merge(&mut a, other);
+                                st.merges += 1;
+                                if a != ents[i1].s {
+                                    fresh.push((a, How::Merge { a: (mask, i1 as u16), b: (m2, i2 as u16) }));
+                                }
+                                if m2 != mask {
+                                    let mut b = other.clone();
+                                    Y::merge(&mut b, &ents[i1].s);
+                                    st.merges += 1;
+                                    if b != ents[i1].s {
+                                        fresh.push((b, How::Merge { a: (m2, i2 as u16), b: (mask, i1 as u16) }));
+                                    }
+                                }
+                            }
+                            if m2 == 0 {
+                                break;
+                            }
+                            m2 = (m2 - 1) & mask;
+                        }
+                    }
+                    start = end;
+                    for (s2, how) in fresh {
+                        if !Self::push_dedup(&mut ents, s2, how, false) {
+                            self.overflow = true;
+                        }
+                    }
+                }
+            }
             if !ents.is_empty() {
                 st.knowledge_sets += 1;
                 st.states += ents.len() as u64;
@@ -420,6 +479,48 @@ impl<Y: Sys> Hist<Y> {
         let i = self.recs.len() - 1;
         self.recs.pop();
         self.table.truncate(1 << i);
+    }
+
+    /// Rust expression (a block) that rebuilds table entry `(m, idx)` from the ops `op0..`.
+    pub fn derivation_code(&self, m: Mask, idx: usize) -> String {
+        match self.table[m as usize][idx].how {
+            How::Init => "S::default()".to_string(),
+            How::Apply { op, from } => format!("{{ let mut r = {}; r.apply(op{}.clone()); r }}", self.derivation_code(from.0, from.1 as usize), op),
+            How::Merge { a, b } => format!("{{ let mut r = {}; r.merge({}); r }}", self.derivation_code(a.0, a.1 as usize), self.derivation_code(b.0, b.1 as usize)),
+        }
+    }
+    /// A stand-alone test that regenerates the ops through the API and rebuilds every state of the
+    /// knowledge set `m`; `None` when the system does not provide the code fragments.
+    pub fn rust_test(&self, m: Mask, kind: &str, detail: &str, actor_of: &dyn Fn(u8) -> u8) -> Option<String> {
+        if Y::rust_type().is_empty() {
+            return None;
+        }
+        let mut t = String::new();
+        t.push_str("// Stand-alone replay without the explorer: put this file under tests/ of a crate that depends on `crdts`\n");
+        t.push_str("// (or under examples/ with `fn main() { replay() }`) and run it.\n");
+        t.push_str("#![allow(unused_imports, unused_mut)]\nuse crdts::*;\nuse crdts::ctx::*;\nuse std::collections::*;\n");
+        t.push_str(&format!("type S = {};\nfn reads(s: &S) -> String {{ {} }}\n\n#[test]\nfn replay() {{\n", Y::rust_type(), Y::rust_reads()));
+        for (i, r) in self.recs.iter().enumerate() {
+            let seen: Vec<usize> = (0..i).filter(|j| r.vis >> j & 1 == 1).collect();
+            t.push_str(&format!("    // op{}: actor {} at a replica that had applied {:?}\n", i, actor_of(r.author), seen));
+            t.push_str(&format!("    let op{} = {{ let mut s = S::default(); ", i));
+            for j in seen {
+                t.push_str(&format!("s.apply(op{}.clone()); ", j));
+            }
+            t.push_str(&format!("{} }};\n", Y::rust_gen(r.cmd, actor_of(r.author), i)));
+        }
+        t.push_str(&format!("    // every way the explorer found to learn exactly the ops {:?}\n", (0..self.recs.len()).filter(|j| m >> j & 1 == 1).collect::<Vec<_>>()));
+        let n = self.table[m as usize].len();
+        for i in 0..n {
+            t.push_str(&format!("    let x{}: S = {};\n    println!(\"x{}: {{}}\", reads(&x{}));\n", i, self.derivation_code(m, i), i, i));
+        }
+        if n > 1 && (kind.contains("divergence") || kind.contains("differs") || kind.starts_with("state-neq")) {
+            for i in 1..n {
+                t.push_str(&format!("    assert_eq!(reads(&x0), reads(&x{}), \"replicas with equal knowledge read differently\");\n", i));
+            }
+        }
+        t.push_str(&format!("    // reported: {} - {}\n}}\n", kind, detail.replace('\n', " ")));
+        Some(t)
     }
 
     /// Human-readable derivation (the schedule) of table entry `(m, idx)`.
@@ -668,7 +769,10 @@ pub fn explore<Y: Sys>(cfg: &Cfg, v: &dyn Visitor<Y>, threads: usize, site_kinds
     st.histories += 1;
     st.knowledge_sets += 1;
     st.states += 1;
-    root_v.visit(&h, cfg, &mut st, &mut sink);
+    if std::panic::catch_unwind(std::panic::AssertUnwindSafe(|| root_v.visit(&h, cfg, &mut st, &mut sink))).is_err() {
+        let (kind, msg) = panic_kind();
+        sink.fail(&h, &kind, 0, || format!("a call into the crate panicked on the initial state: {}", msg));
+    }
     let split = if cfg.n >= 3 { 2 } else { cfg.n };
     let mut leaves = vec![];
     explore_rec(&mut h, cfg, root_v.as_mut(), &mut st, &mut sink, split.min(cfg.n), &mut leaves);
